@@ -2,3 +2,4 @@
 import CoolerModel.Props.C02Core
 import CoolerModel.Props.C02Producers
 import CoolerModel.Props.C02Runs
+import CoolerModel.Props.C02Sorted
